@@ -1,7 +1,7 @@
 SPECIFICATION Spec
 CONSTANTS
   NT = 3
-  MaxLen = 6
+  MaxLen = 4
   Kind = "mutex"
 INVARIANT Emit
 CHECK_DEADLOCK FALSE
